@@ -13,8 +13,8 @@ Model of one client connection of the simulator at the EtherNet/IP encapsulation
 A request frame is given in *parsed* form (`Frame`): the 24-byte header fields and a `Body` that names the
 layout of the payload.  The harness builds the bytes of the frame from the same description; the model produces
 the bytes of the reply frames (`ReplyFrame.encode`).  `Body` covers the layouts the simulator's grammar accepts plus
-a structured set of malformed ones (short Register, unknown command, CPF item lists that are not
-[null address, unconnected data], unknown CIP services); `Frame.inScope` says which frames the model speaks about.
+a structured set of malformed ones (short Register, unknown command, CPF item lists of
+unrecognized items instead of [null address, unconnected data], unknown CIP services); `Frame.inScope` says which frames the model speaks about.
 
 Quirks mirrored: the session handle of a request is never validated; the request's status and options fields
 are echoed (a non-zero request status ends the session after the reply); Register re-draws only on 0 (the
@@ -84,19 +84,11 @@ def Frame.isRegister (f : Frame) : Bool :=
   | .register .. => true
   | _ => false
 
-/-- the CPF parser reads an item of unrecognized type to the end of the payload (`urec[True] = urec` has no limit):
-a non-empty one swallows the items after it, and the announced count is then never reached -/
-def itemsParse : List (Nat × Bytes) → Bool
-  | [] => true
-  | [_] => true
-  | (_, bs) :: rest => bs.isEmpty && itemsParse rest
-
 /-- the encapsulated command parser (`parser.CIP`) accepts the payload -/
 def Frame.parsable (f : Frame) : Bool :=
   match f.body with
   | .registerShort _ => false
   | .unknownCmd .. => false
-  | .sendItems _ _ _ items => itemsParse items
   | _ => true
 
 /-- a reply frame (`enip_encode( data.response.enip )`) -/
@@ -243,7 +235,7 @@ def processWith (fixed : Bool) (cfg : Cfg) (s : Srv) (f : Frame) : Srv × Outcom
   | .listIdentity => (s, .reply (echo f f.hdr.status Generated.listIdentityPayload))
   | .listInterfaces => (s, .reply (echo f f.hdr.status Generated.listInterfacesPayload))
   | .legacy => (s, .reply (echo f f.hdr.status Generated.legacyPayload))
-  | .sendItems _ _ _ items => if itemsParse items then (s, refuse f) else (s, .abort)
+  | .sendItems .. => (s, refuse f)
   | .unknownCmd .. => (s, .abort)
   | .send _ iface timeout w c =>
     if !routeAccepts cfg.route w then (s, refuse f)
